@@ -468,7 +468,8 @@ def localize_crash(suite, seed, ncases, workdir, seqdiff, replay=None):
     # shrink ops
     n = 2
     budget = 60
-    while len(ops) >= 2 and budget > 0:
+    t_end = time.time() + 90
+    while len(ops) >= 2 and budget > 0 and time.time() < t_end:
         chunk = max(1, len(ops) // n); reduced = False
         for start in range(0, len(ops), chunk):
             cand = ops[:start] + ops[start + chunk:]
